@@ -20,10 +20,11 @@ EXPLANATION = (
     'are symbolic reals of either sign (only sum of squares >= 0 assumed). z3 decides on every path that no save raises, '
     'that the reloaded statistics equal the saved ones (hence the same apply(), C16), that for .npz the overwrite flag '
     'decides whether other entries are kept, and that saving without statistics raises ValueError.')
-BOUNDS = {'quick': '1-3 coefficients, targets .npy / .npz (key None or given, compress on/off, overwrite on/off, prior archive absent / present with other keys) / raw binary, 1-2 successive saves',
-          'thorough': 'same with up to 5 coefficients and float32 statistics written by a foreign tool'}
+BOUNDS = {'quick': '1-3 coefficients, targets .npy / .npz (key None or given, compress on/off, overwrite on/off, prior archive absent / present with other keys) / raw binary, 1-2 successive saves; IEEE-754: 1-2 float64 vectors of 1-2 finite coefficients (|x| <= 1e6) accumulated by the real accumulate, saved raw and reloaded',
+          'thorough': 'same with up to 5 coefficients; IEEE-754 also 3 vectors and 3 coefficients'}
 OUTSIDE = ['the real file formats (NumPy/zip) themselves', 'Kaldi table targets', 'count is a concrete positive integer (7); sums are symbolic']
-ASSUMPTIONS = ['statistics come from real data: n * sum x^2 >= (sum x)^2 (violations of it by floating-point rounding are outside the claim)',
+ASSUMPTIONS = ['IEEE-754 configurations: every element-wise NumPy operation on float64 is one round-to-nearest-even operation (z3 QF_FP); reductions (sum, mean) are refused',
+               'statistics come from real data: n * sum x^2 >= (sum x)^2 (violations of it by floating-point rounding are outside the claim)',
                'np.load of a missing file raises an IOError subclass; np.load of .npz returns a read-only NpzFile (item assignment is a TypeError)',
                'np.fromfile(dtype) of a file written by tofile with the same dtype returns the flattened values; with another float dtype it returns unrelated values',
                'polarity of overwrite (True merges / False discards) is reported as a note: the property only requires that the flag decides']
